@@ -39,6 +39,8 @@ type cfgDriver struct {
 	dir            string
 	selfID, peerID string
 	lg             *capLogger
+	wl             []wlReq
+	wlTok          string
 }
 
 func newCfgDriver(w *worker) *cfgDriver {
@@ -188,6 +190,16 @@ func tid16(s string) []byte {
 }
 
 func (d *cfgDriver) workload(cfg config.Config) []wlReq {
+	tok0 := cfg.GetQueryAuthToken()
+	if d.wl != nil && d.wlTok == tok0 {
+		return d.wl
+	}
+	d.wlTok = tok0
+	d.wl = d.buildWorkload(cfg)
+	return d.wl
+}
+
+func (d *cfgDriver) buildWorkload(cfg config.Config) []wlReq {
 	evs := d.events()
 	var out []wlReq
 	addHTTP := func(name string, l pipeline.Listener, r codec.Request) {
@@ -235,6 +247,16 @@ func (d *cfgDriver) run(i int, c cfgCase) {
 	w := d.w
 	w.add("evaluations", 1)
 	w.add("cfg_cases", 1)
+	if os.Getenv("C28_TIMING") != "" {
+		t := time.Now()
+		defer func() {
+			w.add("us_"+c.Group, time.Since(t).Microseconds())
+			w.add("n_"+c.Group, 1)
+			if time.Since(t) > 60*time.Millisecond {
+				fmt.Fprintf(os.Stderr, "SLOW %v %s %s\n", time.Since(t), c.Group, c.Name)
+			}
+		}()
+	}
 	ext := c.CfgExt
 	if ext == "" {
 		ext = ".yaml"
@@ -250,6 +272,15 @@ func (d *cfgDriver) run(i int, c cfgCase) {
 		panic(err)
 	}
 	base := runtime.NumGoroutine()
+	tim := os.Getenv("C28_TIMING") != ""
+	tp := time.Now()
+	lap := func(name string) {
+		if tim {
+			w.add("us_phase_"+name, time.Since(tp).Microseconds())
+			w.add("n_phase_"+name, 1)
+			tp = time.Now()
+		}
+	}
 
 	var cfg config.Config
 	var lerr error
@@ -268,11 +299,14 @@ func (d *cfgDriver) run(i int, c cfgCase) {
 		return
 	}
 	_ = lerr // warnings only
+	lap("load")
 	w.add("cfg_accepted", 1)
 	w.distinct("cfg_outcomes", c.Group+"|accepted")
 	w.distinct("distinct_nontrivial", "accepted:"+c.Group+":"+c.Name)
 
+	failed := false // after the first panic the objects involved are in an undefined state (e.g. a mutex left locked): stop using them
 	report := func(phase string, rec *recovered) {
+		failed = true
 		w.distinct("cfg_outcomes", c.Group+"|accepted|panic")
 		w.violation(i, "panic@"+site(rec.Stack),
 			fmt.Sprintf("configuration passes validation, then %s panics: %s\n%s", phase, normMsg(rec.Msg), trimStack(rec.Stack)), c)
@@ -326,6 +360,7 @@ func (d *cfgDriver) run(i int, c cfgCase) {
 		}
 	}
 
+	lap("S")
 	// ---- phase P: the fixed workload through every endpoint of a node that runs on this configuration
 	var n *pipeline.Node
 	if rec := guard(func() {
@@ -337,9 +372,11 @@ func (d *cfgDriver) run(i int, c cfgCase) {
 		for _, r := range n.Routers {
 			r.Config = cfg // handlers read the REAL loaded configuration (getters of fileConfig), not the copy
 		}
+		lap("P_new")
 		for _, q := range d.workload(cfg) {
 			q := q
 			status := 0
+			tq := time.Now()
 			rec := guard(func() {
 				switch q.grpc {
 				case "trace":
@@ -354,14 +391,17 @@ func (d *cfgDriver) run(i int, c cfgCase) {
 				report("serving "+q.name+" on the "+q.l.String()+" listener (panic not recovered by Refinery)", rec)
 			}
 			for _, cp := range d.lg.takeCaught() {
-				if strings.HasPrefix(q.name, "GET /panic") {
-					continue
-				}
+				failed = true
 				w.violation(i, "panic@"+site(cp.Stack),
 					fmt.Sprintf("configuration passes validation, then serving %s on the %s listener panics (recovered by panicCatcher → HTTP %d): %s\n%s", q.name, q.l, status, normMsg(cp.Err), trimStack(cp.Stack)), c)
 			}
 			w.distinct("cfg_workload_status", fmt.Sprintf("%s:%d", strings.SplitN(q.name, "-", 2)[0], status))
+			if tim {
+				w.add("us_req_"+q.name, time.Since(tq).Microseconds())
+				w.add("n_req_"+q.name, 1)
+			}
 		}
+		lap("P_reqs")
 		if rec := guard(func() { collectorStep(n, samplers) }); rec != nil {
 			report("deciding/sending the spans the routers accepted", rec)
 		}
@@ -369,20 +409,36 @@ func (d *cfgDriver) run(i int, c cfgCase) {
 			report("serialising and sending the accepted events (DirectTransmission.sendBatch)", rec)
 			n = nil // transmissions are unusable after a failed flush
 		}
+		lap("P_flush")
 	}
 
+	lap("P")
 	// ---- phase C (deviations of the main file): a real InMemCollector started with this configuration
-	if c.Main && n != nil {
+	if c.Main && n != nil && !failed {
 		d.collectorPhase(i, c, cfg, n, factory, met, report)
 	}
-	if n != nil {
+	if n != nil && !failed {
 		if rec := guard(func() { n.Close() }); rec != nil {
 			report("stopping routers/transmissions", rec)
 		}
 	}
+	if failed {
+		w.recycle(i) // fresh process for the next case
+	}
+	lap("C")
+	guard(func() { sample.VerifC28StopDynsamplers(factory) }) // harness hygiene, before the factory forgets them
 	guard(func() { factory.Stop() })
-	if !settle(base + 1) {
+	ok := settle(base)
+	lap("settle")
+	if tim && !ok {
+		buf := make([]byte, 1<<20)
+		fmt.Fprintf(os.Stderr, "LEFTOVER base=%d now=%d\n%s\n", base, runtime.NumGoroutine(), buf[:runtime.Stack(buf, true)])
+	}
+	if !ok {
+		// something the case started is still running: finish this worker process, the orchestrator starts a
+		// fresh one at the next index (a leftover goroutine must never be blamed on, or disturb, a later case)
 		w.add("cfg_cases_with_leftover_goroutines", 1)
+		w.recycle(i)
 	}
 }
 
@@ -426,9 +482,11 @@ func (d *cfgDriver) collectorPhase(i int, c cfgCase, cfg config.Config, n *pipel
 		coll.ProcessSpanImmediately(mkSpan(cfg, d.selfID, true, fieldSets[0].root, true))
 	}); rec != nil {
 		report("the collector processing/deciding/sending spans", rec)
+		return
 	}
 	if rec := guard(func() { coll.Stop() }); rec != nil {
 		report("InMemCollector.Stop", rec)
+		return
 	}
 	if rec := guard(func() { n.Flush() }); rec != nil {
 		report("sending what the collector kept", rec)
